@@ -8,6 +8,7 @@ binary membership rule have the documented form.  Declined: correctness of the h
 count and optimality of the Jenks dynamic programme (loop invariants / global optimum).
 """
 import ast
+import re
 
 from ..astutil import calls, const, kw, parent_map, short
 from ..kai import interpret, flatten_and, cond_repr, cond_key, cmp_cond
@@ -302,13 +303,21 @@ def check_precision(prog, rep, m):
         if f is None:
             continue
         bcalls = [c for c in calls(f.node) if c in f.own_nodes() and short(c) == '_bin' and len(c.args) >= 2]
-        mx = [v for v in f.local_assigns().get('max_data', []) if isinstance(v, ast.AST)]
-        okm = any(norm(v).replace(' ', '') in ('np.max(data[np.isfinite(data)])', 'np.nanmax(data[np.isfinite(data)])',
-                                              'module.nanmax(data)') for v in mx)
+        # the local that holds the maximum of the finite cells (whatever it is called): the one assigned from max / nanmax of
+        # the finite part of a local array
+        mxname, okm = 'max_data', False
+        for nm_, vals_ in f.local_assigns().items():
+            for v in vals_:
+                if not isinstance(v, ast.AST):
+                    continue
+                t_ = norm(v).replace(' ', '')
+                mo = re.fullmatch(r'(np|numpy)\.(nan)?max\((\w+)\[(np|numpy)\.isfinite\((\w+)\)\]\)', t_)
+                if (mo and mo.group(3) == mo.group(5)) or re.fullmatch(r'module\.nanmax\(\w+\)', t_):
+                    mxname, okm = nm_, True
         pm = parent_map(f.node)
         for c in bcalls:
             n += 1
-            ok, why = last_is_max(f, pm, c, c.args[1])
+            ok, why = last_is_max(f, pm, c, c.args[1], mxname)
             rep.add('K3', f, label, '%s: last break == max_data when binned' % norm(c)[:80], c.lineno, ok and okm,
                     'the last break of the vector handed to the binning kernel must be the exact maximum of the finite cells '
                     '(accumulated rounding of min + i*width, or a sample that misses the maximum, leaves the maximum cell '
@@ -336,7 +345,7 @@ def check_precision(prog, rep, m):
     return n
 
 
-def last_is_max(f, pm, call, barg):
+def last_is_max(f, pm, call, barg, mxname='max_data'):
     """(ok, why): on every path to the call, the most recent statement touching the break vector forces its last
     element to max_data: `v[-1] = max_data` or `v = concatenate([..., max_data.reshape(1)])`; aliases are followed,
     if/else branches are followed separately; a slice / rebuild of the vector in between (or at the call) loses it."""
@@ -364,7 +373,7 @@ def last_is_max(f, pm, call, barg):
                     continue
                 rest = [blk[:si]] + stmts[bi + 1:]
                 if isinstance(s, ast.Assign) and isinstance(s.targets[0], ast.Subscript) and norm(s.targets[0].value) == name:
-                    if norm(s.targets[0].slice) == '-1' and norm(s.value) == 'max_data':
+                    if norm(s.targets[0].slice) == '-1' and norm(s.value) == mxname:
                         return True, ''
                     if norm(s.targets[0].slice) != '-1' and isinstance(s.targets[0].slice, ast.Constant):
                         continue        # another single element: the last one is untouched by it
@@ -374,7 +383,7 @@ def last_is_max(f, pm, call, barg):
                     if isinstance(v, ast.Name):
                         return scan(rest, v.id) or (False, 'nothing forces %s[-1] = max_data' % v.id)
                     if isinstance(v, ast.Call) and short(v) == 'concatenate' and v.args and isinstance(v.args[0], (ast.List, ast.Tuple)) \
-                            and v.args[0].elts and norm(v.args[0].elts[-1]).replace(' ', '') in ('max_data.reshape(1)', '[max_data]', 'np.array([max_data])'):
+                            and v.args[0].elts and norm(v.args[0].elts[-1]).replace(' ', '') in ('%s.reshape(1)' % mxname, '[%s]' % mxname, 'np.array([%s])' % mxname):
                         return True, ''
                     return False, '%s is rebuilt by `%s` after the maximum was forced (or never forced)' % (name, norm(s)[:80])
                 if isinstance(s, ast.If):
@@ -411,21 +420,40 @@ def check_formulas(prog, rep, m):
     g = m.funcs.get('_run_equal_interval')
     if g is None:
         raise AnalysisIncomplete('_run_equal_interval not found')
-    env = {'max_data': Rat.sym('max'), 'min_data': Rat.sym('min'), 'k': Rat.sym('k')}
+    # the locals by what they hold, not by their names: the maximum / minimum are assigned from nanmax / nanmin, the width
+    # is the local whose value is (max - min) / k, the cuts are the locals built from an arange
+    la = g.local_assigns()
+    mxn = next((n_ for n_, vs in la.items() for v in vs if isinstance(v, ast.Call) and short(v) in ('nanmax', 'max')), 'max_data')
+    mnn = next((n_ for n_, vs in la.items() for v in vs if isinstance(v, ast.Call) and short(v) in ('nanmin', 'min')), 'min_data')
+    env = {mxn: Rat.sym('max'), mnn: Rat.sym('min'), 'k': Rat.sym('k')}
     sp = Spec(prog, env, m)
-    w = [v for v in g.local_assigns().get('width', []) if isinstance(v, ast.AST)]
+    w, wname = [], 'width'
+    for n_, vs in la.items():
+        vs = [v for v in vs if isinstance(v, ast.AST)]
+        if len(vs) == 1 and isinstance(vs[0], ast.BinOp) and n_ not in (mxn, mnn):
+            try:
+                if sp.it.as_scalar(sp.it.ev(vs[0])) == (Rat.sym('max') - Rat.sym('min')) / Rat.sym('k'):
+                    w, wname = vs, n_
+            except AnalysisIncomplete:
+                pass
+    if not w:
+        w = [v for v in la.get('width', []) if isinstance(v, ast.AST)]
     ok = False
     if len(w) == 1:
         try:
             got = sp.it.as_scalar(sp.it.ev(w[0]))
             ok = got == (Rat.sym('max') - Rat.sym('min')) / Rat.sym('k')
             sp.it.env['width'] = got
+            sp.it.env[wname] = got
         except AnalysisIncomplete:
             ok = False
     rep.add('K4', g, 'equal_interval', 'width = %s' % (norm(w[0]) if w else None), g.node.lineno, ok,
             'the class width must be (max - min) / k')
     # cuts: arange(min + width, max + width, width) | (min + width) + arange(k) * width
-    cuts = [v for v in g.local_assigns().get('cuts', []) if isinstance(v, ast.AST)]
+    cname = next((n_ for n_, vs in la.items() for v in vs if isinstance(v, ast.AST) and
+                  any(isinstance(x, ast.Call) and short(x) == 'arange' for x in ast.walk(v)) and
+                  not (isinstance(v, ast.Call) and short(v) == '_bin')), 'cuts')
+    cuts = [v for v in la.get(cname, []) if isinstance(v, ast.AST)]
     forms = []
     for v in cuts:
         t = norm(v).replace(' ', '')
@@ -455,7 +483,7 @@ def check_formulas(prog, rep, m):
                 forms.append(got == Rat.sym('min') + (Rat.sym('i') + Rat.const(1)) * sp.it.env['width'])
             except (AnalysisIncomplete, KeyError):
                 forms.append(False)
-        elif t in ('cuts[0:k]', 'cuts[:k]'):
+        elif t in ('%s[0:k]' % cname, '%s[:k]' % cname):
             continue
         else:
             forms.append(False)
@@ -466,22 +494,28 @@ def check_formulas(prog, rep, m):
     t = {norm(s.value).replace(' ', '') for s in infs}
     names = {'inf': 'inf', 'np.inf': 'inf', 'numpy.inf': 'inf', 'cupy.inf': 'inf', 'nan': 'nan', 'np.nan': 'nan', 'numpy.nan': 'nan',
              'cupy.nan': 'nan'}
+    for n_, vs_ in la.items():
+        for v_ in vs_:
+            if isinstance(v_, ast.AST) and norm(v_) in names and n_ not in names:
+                names = dict(names, **{n_: names[norm(v_)]})     # local aliases of nan / inf (whatever they are called)
     both = plus = minus = False
     for s_ in infs:
         a_ = s_.value.args
-        if len(a_) != 3 or names.get(norm(a_[1])) != 'nan' or norm(a_[2]) != 'data':
+        dname = norm(a_[2]) if len(a_) == 3 else None
+        if len(a_) != 3 or names.get(norm(a_[1])) != 'nan' or not isinstance(a_[2], ast.Name) or norm(s_.targets[0]) != dname:
             continue
         c0 = norm(a_[0]).replace(' ', '')
+        c0 = c0.replace(dname, 'data') if dname else c0
         if c0 in ('module.isinf(data)', 'np.isinf(data)', '~module.isfinite(data)&~module.isnan(data)'):
             both = True
-        for nm, kind in names.items():
+        for nm, kind in list(names.items()) + [(n_, names[norm(v_)]) for n_, vs_ in la.items() for v_ in vs_ if isinstance(v_, ast.AST) and norm(v_) in names]:
             if kind == 'inf':
                 plus = plus or c0 in ('data==%s' % nm, '%s==data' % nm)
                 minus = minus or c0 in ('data==-%s' % nm, '-%s==data' % nm)
     # the masked array must be the one whose nanmin / nanmax are taken (the statements come before them)
     mm = [s_ for s_ in g.own_nodes() if isinstance(s_, ast.Assign) and isinstance(s_.value, ast.Call) and short(s_.value) in ('nanmax', 'nanmin')]
     before = bool(infs) and bool(mm) and max(x.lineno for x in infs) < min(x.lineno for x in mm) and \
-        all(norm(x.value.args[0]) == 'data' for x in mm)
+        len({norm(x.value.args[0]) for x in mm} | {norm(x.value.args[2]) for x in infs if len(x.value.args) == 3}) == 1
     ok = (both or (plus and minus)) and before
     rep.add('K4', g, 'equal_interval', 'infinities removed before nanmin / nanmax', g.node.lineno, ok,
             '+inf and -inf must not take part in the [min, max] range')
@@ -491,20 +525,32 @@ def check_formulas(prog, rep, m):
         raise AnalysisIncomplete('_run_quantile not found')
     env = {'k': Rat.sym('k')}
     sp = Spec(prog, env, m)
-    wv = [v for v in q.local_assigns().get('w', []) if isinstance(v, ast.AST)]
+    qa = q.local_assigns()
+    wn = 'w'
+    for n_, vs in qa.items():
+        vs = [v for v in vs if isinstance(v, ast.AST)]
+        if len(vs) == 1 and isinstance(vs[0], ast.BinOp):
+            try:
+                if sp.it.as_scalar(sp.it.ev(vs[0])) == Rat.const(100) / Rat.sym('k'):
+                    wn = n_
+            except AnalysisIncomplete:
+                pass
+    wv = [v for v in qa.get(wn, []) if isinstance(v, ast.AST)]
     okw = False
     if len(wv) == 1:
         got = sp.it.as_scalar(sp.it.ev(wv[0]))
         okw = got == Rat.const(100) / Rat.sym('k')
+        sp.it.env[wn] = got
         sp.it.env['w'] = got
-    pv = [v for v in q.local_assigns().get('p', []) if isinstance(v, ast.AST)]
+    pn = next((n_ for n_, vs in qa.items() for v in vs if isinstance(v, ast.Call) and short(v) == 'arange'), 'p')
+    pv = [v for v in qa.get(pn, []) if isinstance(v, ast.AST)]
     okp = False
     if len(pv) == 1 and isinstance(pv[0], ast.Call) and short(pv[0]) == 'arange' and len(pv[0].args) == 3 and okw:
         a, b, c = [sp.it.as_scalar(sp.it.ev(x)) for x in pv[0].args]
         wd = sp.it.env['w']
         okp = a == wd and b == Rat.const(100) + wd and c == wd
-    cap = any(isinstance(s, ast.If) and norm(s.test).replace(' ', '') == 'p[-1]>100.0' and
-              any(norm(x).replace(' ', '') == 'p[-1]=100.0' for x in s.body) for s in q.own_nodes())
+    cap = any(isinstance(s, ast.If) and norm(s.test).replace(' ', '') in ('%s[-1]>100.0' % pn, '%s[-1]>100' % pn) and
+              any(norm(x).replace(' ', '') in ('%s[-1]=100.0' % pn, '%s[-1]=100' % pn) for x in s.body) for s in q.own_nodes())
     rep.add('K4', q, 'quantile', 'percentile levels w, 2w, ... capped at 100', q.node.lineno, okw and okp and cap,
             'the k percentile levels must be 100*i/k, i = 1..k, the last one capped at 100 (w ok: %s, levels ok: %s, cap: %s)'
             % (okw, okp, cap))
@@ -514,7 +560,7 @@ def check_formulas(prog, rep, m):
         loc = [v for v in q.local_assigns().get(a0.id, []) if isinstance(v, ast.AST)]
         a0 = loc[0] if len(loc) == 1 else a0
     ok = len(pc) == 1 and a0 is not None and norm(a0).replace(' ', '') in ('data[module.isfinite(data)]', 'data[np.isfinite(data)]') and \
-        norm(pc[0].args[1]) == 'p'
+        norm(pc[0].args[1]) == pn
     rep.add('K4', q, 'quantile', norm(pc[0])[:100] if pc else 'percentile call', q.node.lineno, ok,
             'percentiles are taken over the finite cells only')
     un = [c for c in calls(q.node) if short(c) == 'unique']
